@@ -18,14 +18,19 @@ structure Shrink (s s' : State) : Prop where
   ghostKept : ∀ j, (s.objs j).status = .ghost → (s'.objs j).status = .ghost
   noneKept : ∀ j, (s.objs j).oid = none → s'.objs j = s.objs j
   lost : ∀ j, (s'.objs j).oid = none → (s.objs j).oid ≠ none → (s'.objs j).status = .ghost → s'.d2 = true
+  disownedClean : ∀ j, (s'.objs j).oid = none → (s.objs j).oid ≠ none → (s'.objs j).status ≠ .changed
+  ghostWhy : ∀ j, (s'.objs j).status = .ghost → (s.objs j).status = .ghost ∨ ∃ k, s.cache.get k = some j
   d2 : s.d2 = true → s'.d2 = true
   nextOid : s'.nextOid = s.nextOid
   snap : s'.snap = s.snap
   opened : s'.opened = s.opened
 
 theorem Shrink.refl (s : State) : Shrink s s := by
-  constructor <;> simp
-  intro j h1 h2; exact absurd h1 h2
+  refine ⟨fun _ _ h => h, fun _ _ h => h, fun _ => Or.inl rfl, fun _ => ⟨rfl, rfl, rfl⟩,
+    fun _ => Or.inl rfl, fun _ h => h, fun _ _ => rfl, ?_, ?_, fun _ h => Or.inl h, fun h => h,
+    rfl, rfl, rfl⟩
+  · intro j h1 h2; exact absurd h1 h2
+  · intro j h1 h2; exact absurd h1 h2
 
 theorem Shrink.trans {a b c : State} (h1 : Shrink a b) (h2 : Shrink b c) : Shrink a c := by
   constructor
@@ -51,6 +56,14 @@ theorem Shrink.trans {a b c : State} (h1 : Shrink a b) (h2 : Shrink b c) : Shrin
       rw [this] at hg
       exact h2.d2 (h1.lost j hb hs hg)
     · exact h2.lost j hn hb hg
+  · intro j hn hs
+    by_cases hb : (b.objs j).oid = none
+    · rw [h2.noneKept j hb]; exact h1.disownedClean j hb hs
+    · exact h2.disownedClean j hn hb
+  · intro j hg
+    rcases h2.ghostWhy j hg with h3 | ⟨k, h3⟩
+    · exact h1.ghostWhy j h3
+    · exact Or.inr ⟨k, h1.cache k j h3⟩
   · intro h; exact h2.d2 (h1.d2 h)
   · rw [h2.nextOid, h1.nextOid]
   · rw [h2.snap, h1.snap]
@@ -68,6 +81,8 @@ theorem Shrink.congr {s s' t : State} (h : Shrink s s') (ho : t.objs = s'.objs) 
   · rw [ho]; exact h.ghostKept
   · rw [ho]; exact h.noneKept
   · rw [ho, hd]; exact h.lost
+  · rw [ho]; exact h.disownedClean
+  · rw [ho]; exact h.ghostWhy
   · rw [hd]; exact h.d2
   · rw [hn]; exact h.nextOid
   · rw [hs]; exact h.snap
@@ -101,6 +116,8 @@ theorem remove_shrink (s : State) (i k) (hk : (s.objs i).oid = some k) :
   constructor
   · intro k' j hj; simp only [disown, setO, Map.get_del] at hj; grind
   · intro k' j hj; simp only [disown, setO, Map.get_del] at hj; grind
+  · intro j; simp only [disown, setO]; grind
+  · intro j; simp only [disown, setO]; grind
   · intro j; simp only [disown, setO]; grind
   · intro j; simp only [disown, setO]; grind
   · intro j; simp only [disown, setO]; grind
@@ -204,6 +221,8 @@ theorem drainAdded_clean {P s} (h : Str P s) : Clean P s (drainAdded s) := by
     · exact h1.ghostKept
     · exact h1.noneKept
     · exact h1.lost
+    · exact h1.disownedClean
+    · exact h1.ghostWhy
     · exact h1.d2
     · exact h1.nextOid
     · exact h1.snap
